@@ -6,7 +6,10 @@
    The three endpoints run the same algorithm; they differ in which errno values the except clause of _write
    treats how ([policy]).  [fixed k] is the code with the three proposed C11 patches applied, [legacy k] the
    code before them (Client and File dropped the popped payload on a transient refusal; Client did not close on
-   a fatal errno other than EPIPE/ENOTCONN).
+   a fatal errno other than EPIPE/ENOTCONN; all three kept state for writes and closes arriving after the
+   descriptor was closed).
+   The second half of the file is the Server with its real tables (_clients, _buffers, _closeq, the poller's
+   writer list) for any number of connections.
    Bytes are N.  No proofs in this file. *)
 From Coq Require Import List NArith Bool Arith.
 Import ListNotations.
@@ -28,22 +31,31 @@ Record policy := {
   requeue : N -> bool;        (* except clause: push the popped payload back to the front *)
   quiet : N -> bool;          (* close without an error event (Client: EPIPE, ENOTCONN) *)
   ignore : N -> bool;         (* legacy only: drop the payload and carry on (with or without an error event) *)
-  ignore_err : N -> bool      (* ... whether that branch fires an error event *)
+  ignore_err : N -> bool;     (* ... whether that branch fires an error event *)
+  late_write_noop : bool;     (* write on a closed endpoint returns at once (Server: sock not in _clients;
+                                 Client: _sock.fileno() < 0; File: _fd closed) *)
+  closed_guard : bool         (* Server only: close(sock) and _on_write(sock) return at once for a socket that
+                                 is not in _clients *)
 }.
 
 Definition fixed (k : kind) : policy :=
   {| requeue := transient;
      quiet := match k with Client => pipe_like | _ => fun _ => false end;
      ignore := fun _ => false;
-     ignore_err := fun _ => false |}.
+     ignore_err := fun _ => false;
+     late_write_noop := true;
+     closed_guard := match k with Server => true | _ => false end |}.
 
 Definition legacy (k : kind) : policy :=
   match k with
-  | Server => fixed Server
+  | Server => {| requeue := transient; quiet := fun _ => false; ignore := fun _ => false;
+                 ignore_err := fun _ => false; late_write_noop := false; closed_guard := false |}
   | Client => {| requeue := fun _ => false; quiet := pipe_like;
-                 ignore := fun e => negb (pipe_like e); ignore_err := fun _ => true |}
+                 ignore := fun e => negb (pipe_like e); ignore_err := fun _ => true;
+                 late_write_noop := false; closed_guard := false |}
   | File => {| requeue := fun _ => false; quiet := fun _ => false;
-               ignore := fun e => N.eqb e EAGAIN || N.eqb e EINTR; ignore_err := fun _ => false |}
+               ignore := fun e => N.eqb e EAGAIN || N.eqb e EINTR; ignore_err := fun _ => false;
+               late_write_noop := false; closed_guard := false |}
   end.
 
 (* what the OS answers to one send(): accepts up to k bytes, or raises errno e *)
@@ -61,7 +73,10 @@ Inductive ev :=
 | SendErr (d : list N) (e : N)     (* send(d) raised errno e *)
 | SockClose                        (* shutdown()/close() of the descriptor *)
 | EvError                          (* an error event *)
-| EvDisc.                          (* disconnect / disconnected / closed event *)
+| EvDisc                           (* disconnect / disconnected / closed event *)
+| Unmodelled.                      (* a `_write` event for a closed endpoint that still has writer interest: what the
+                                      code does then (EBADF / ValueError paths) is not transcribed; the theorems show
+                                      that the patched code never gets there *)
 
 Record ostate := {
   buf : list (list N);      (* _buffers[sock] / _buffer: unsent payloads, oldest first *)
@@ -69,9 +84,11 @@ Record ostate := {
   writing : bool            (* poller.isWriting(sock) *)
 }.
 
-Inductive state := Open (s : ostate) | Closed.
+(* a closed endpoint keeps its tables: the code could (and before the repairs did) put things into them *)
+Inductive state := Open (s : ostate) | Closed (s : ostate).
 
-Definition init : state := Open {| buf := []; closereq := false; writing := false |}.
+Definition empty : ostate := {| buf := []; closereq := false; writing := false |}.
+Definition init : state := Open empty.
 
 (* _close(): discard from the poller, drop the buffer, shutdown+close the descriptor, fire the event *)
 Definition closing : list ev := [SockClose; EvDisc].
@@ -80,8 +97,8 @@ Definition closing : list ev := [SockClose; EvDisc].
      if not buffer:  if close requested: _close()   elif isWriting: removeWriter *)
 Definition after_write (s : ostate) (evs : list ev) : state * list ev :=
   match buf s with
-  | [] => if closereq s then (Closed, evs ++ closing)
-          else (Open {| buf := []; closereq := false; writing := false |}, evs)
+  | [] => if closereq s then (Closed empty, evs ++ closing)
+          else (Open empty, evs)
   | _ :: _ => (Open s, evs)
   end.
 
@@ -101,21 +118,39 @@ Definition tick (p : policy) (o : outcome) (s : ostate) : state * list ev :=
           after_write (set_buf s b) [Send d n]
       | Refuse e =>
           if requeue p e then after_write (set_buf s (d :: rest)) [SendErr d e]
-          else if quiet p e then (Closed, SendErr d e :: closing)
+          else if quiet p e then (Closed empty, SendErr d e :: closing)
           else if ignore p e then
             after_write (set_buf s rest) (SendErr d e :: if ignore_err p e then [EvError] else [])
-          else (Closed, SendErr d e :: EvError :: closing)
+          else (Closed empty, SendErr d e :: EvError :: closing)
       end
   end.
 
 Definition step (p : policy) (st : state) (o : op) : state * list ev :=
   match st with
-  | Closed => (Closed, [])      (* the model stops at the close; see notes/C11.md *)
+  | Closed s =>
+      (* after _close(): Server.write/close/_on_write look the socket up in _clients; Client.write asks
+         _sock.fileno(), Client.close / File.close look at the buffer and call _close(), which returns at once;
+         File.write asks _fd.closed *)
+      match o with
+      | Write d =>
+          if late_write_noop p then (Closed s, [])
+          else (Closed {| buf := buf s ++ [d]; closereq := closereq s; writing := true |}, [])
+      | Close =>
+          if closed_guard p then (Closed s, [])
+          else match buf s with
+               | [] => (Closed s, [])
+               | _ :: _ => (Closed {| buf := buf s; closereq := true; writing := writing s |}, [])
+               end
+      | Tick _ =>
+          if negb (writing s) then (Closed s, [])       (* the poller has nothing registered *)
+          else if closed_guard p then (Closed s, [])
+          else (Closed s, [Unmodelled])
+      end
   | Open s =>
       match o with
       | Write d => (Open {| buf := buf s ++ [d]; closereq := closereq s; writing := true |}, [])
       | Close => match buf s with
-                 | [] => (Closed, closing)
+                 | [] => (Closed empty, closing)
                  | _ :: _ => (Open {| buf := buf s; closereq := true; writing := writing s |}, [])
                  end
       | Tick oc => tick p oc s
@@ -161,3 +196,154 @@ Definition signalled (evs : list ev) : bool :=
 
 Definition sock_closed (evs : list ev) : bool :=
   existsb (fun e => match e with SockClose => true | _ => false end) evs.
+
+(* ================================================================================================
+   The Server with its real tables, any number of connections (sockets are nat ids).
+     _clients : list        membership decides whether a socket is connected
+     _buffers : dict        socket -> deque of unsent payloads (a defaultdict: a missing key reads as empty)
+     _closeq  : list        sockets to close once drained
+     writers  : list        the poller's _write list
+   Transcribed from circuits/net/sockets.py (HEAD with the C11 and C12 repairs): Server.write, close(sock),
+   close() [all], _on_write, _write, _close.  The listening socket is not part of the model. *)
+
+Definition mem (t : nat) (l : list nat) : bool := existsb (Nat.eqb t) l.
+
+(* list.remove(x): the first occurrence *)
+Fixpoint remove1 (t : nat) (l : list nat) : list nat :=
+  match l with
+  | [] => []
+  | x :: r => if Nat.eqb t x then r else x :: remove1 t r
+  end.
+
+Definition add1 (t : nat) (l : list nat) : list nat := if mem t l then l else l ++ [t].
+
+Definition dict := list (nat * list (list N)).
+
+Fixpoint dget (t : nat) (b : dict) : list (list N) :=      (* defaultdict read; missing = empty deque *)
+  match b with
+  | [] => []
+  | (x, v) :: r => if Nat.eqb t x then v else dget t r
+  end.
+
+Fixpoint dset (t : nat) (v : list (list N)) (b : dict) : dict :=
+  match b with
+  | [] => [(t, v)]
+  | (x, w) :: r => if Nat.eqb t x then (t, v) :: r else (x, w) :: dset t v r
+  end.
+
+Definition ddel (t : nat) (b : dict) : dict := filter (fun e => negb (Nat.eqb t (fst e))) b.
+
+Record srv := {
+  clients : list nat;
+  buffers : dict;
+  closeq : list nat;
+  writers : list nat
+}.
+
+Definition with_buffers (m : srv) (b : dict) : srv :=
+  {| clients := clients m; buffers := b; closeq := closeq m; writers := writers m |}.
+
+(* Server._close(sock) *)
+Definition s_close1 (m : srv) (t : nat) : srv * list ev :=
+  if mem t (clients m) then
+    ({| clients := remove1 t (clients m); buffers := ddel t (buffers m);
+        closeq := remove1 t (closeq m); writers := remove1 t (writers m) |}, closing)
+  else (m, []).
+
+(* Server.write(sock, data) *)
+Definition s_write (m : srv) (t : nat) (d : list N) : srv * list ev :=
+  if mem t (clients m) then
+    ({| clients := clients m; buffers := dset t (dget t (buffers m) ++ [d]) (buffers m);
+        closeq := closeq m; writers := add1 t (writers m) |}, [])
+  else (m, []).
+
+(* Server.close(sock): one target of the loop *)
+Definition s_close (m : srv) (t : nat) : srv * list ev :=
+  if mem t (clients m) then
+    match dget t (buffers m) with
+    | [] => s_close1 m t
+    | _ :: _ => ({| clients := clients m; buffers := buffers m; closeq := add1 t (closeq m);
+                    writers := writers m |}, [])
+    end
+  else (m, []).
+
+(* second half of Server._on_write *)
+Definition s_after (m : srv) (t : nat) (evs : list ev) : srv * list ev :=
+  match dget t (buffers m) with
+  | [] => if mem t (closeq m) then
+            let '(m1, e1) := s_close1 {| clients := clients m; buffers := buffers m;
+                                        closeq := remove1 t (closeq m); writers := writers m |} t in
+            (m1, evs ++ e1)
+          else ({| clients := clients m; buffers := buffers m; closeq := closeq m;
+                   writers := remove1 t (writers m) |}, evs)
+  | _ :: _ => (m, evs)
+  end.
+
+(* one poller iteration for socket t: `_write(t)` is fired iff t has writer interest *)
+Definition s_tick (m : srv) (t : nat) (o : outcome) : srv * list ev :=
+  if negb (mem t (writers m)) then (m, []) else
+  if negb (mem t (clients m)) then (m, []) else
+  match dget t (buffers m) with
+  | [] => s_after m t []
+  | d :: rest =>
+      match o with
+      | Accept k =>
+          let n := N.to_nat (N.min k (N.of_nat (length d))) in
+          let b := if n <? length d then skipn n d :: rest else rest in
+          s_after (with_buffers m (dset t b (buffers m))) t [Send d n]
+      | Refuse e =>
+          if transient e then s_after (with_buffers m (dset t (d :: rest) (buffers m))) t [SendErr d e]
+          else let '(m1, e1) := s_close1 (with_buffers m (dset t rest (buffers m))) t in
+               (m1, SendErr d e :: EvError :: e1)      (* then: `if sock not in self._clients: return` *)
+      end
+  end.
+
+Inductive mop :=
+| On (t : nat) (o : op)       (* write(t, d) / close(t) / poller iteration for t *)
+| CloseAll.                   (* close(): every connection, in _clients order *)
+
+Definition tag (t : nat) (evs : list ev) : list (nat * ev) := map (pair t) evs.
+
+Fixpoint s_close_list (m : srv) (l : list nat) : srv * list (nat * ev) :=
+  match l with
+  | [] => (m, [])
+  | t :: r => let '(m1, e1) := s_close m t in
+              let '(m2, e2) := s_close_list m1 r in (m2, tag t e1 ++ e2)
+  end.
+
+Definition mstep (m : srv) (o : mop) : srv * list (nat * ev) :=
+  match o with
+  | On t (Write d) => let '(m1, e) := s_write m t d in (m1, tag t e)
+  | On t Close => let '(m1, e) := s_close m t in (m1, tag t e)
+  | On t (Tick oc) => let '(m1, e) := s_tick m t oc in (m1, tag t e)
+  | CloseAll => s_close_list m (clients m)
+  end.
+
+Fixpoint mrun (m : srv) (ops : list mop) : srv * list (nat * ev) :=
+  match ops with
+  | [] => (m, [])
+  | o :: r => let '(m1, e1) := mstep m o in
+              let '(m2, e2) := mrun m1 r in (m2, e1 ++ e2)
+  end.
+
+(* a server that has accepted the connections l and done nothing else *)
+Definition fresh (l : list nat) : srv := {| clients := l; buffers := []; closeq := []; writers := [] |}.
+
+(* what the tables say about one socket: the per-connection state of the first half of this file *)
+Definition view (m : srv) (s : nat) : state :=
+  let o := {| buf := dget s (buffers m); closereq := mem s (closeq m); writing := mem s (writers m) |} in
+  if mem s (clients m) then Open o else Closed o.
+
+(* the operations and events that concern socket s *)
+Fixpoint proj (s : nat) (ops : list mop) : list op :=
+  match ops with
+  | [] => []
+  | On t o :: r => if Nat.eqb t s then o :: proj s r else proj s r
+  | CloseAll :: r => Close :: proj s r
+  end.
+
+Fixpoint projev (s : nat) (evs : list (nat * ev)) : list ev :=
+  match evs with
+  | [] => []
+  | (t, e) :: r => if Nat.eqb t s then e :: projev s r else projev s r
+  end.
